@@ -370,7 +370,7 @@ ConvCompute ==
     LET j == jobs.conv
         vis == Visible(j.idx)
         verOf(s) == (CHOOSE e \in vis : e[1] = s)[3]
-        has(c, s) == \E x \in cache[c] : x[1] = s
+        has(c, s) == c \in DOMAIN cache /\ \E x \in cache[c] : x[1] = s
         exists(s) == \E e \in vis : e[1] = s
     IN
     /\ j.phase = "start"
@@ -385,7 +385,7 @@ ConvCompute ==
 \* the closure posted by convertStreamJob (manager.go:1540-1572)
 ConvDone(pick) ==
     LET j == jobs.conv
-        conv == UNION {j.ids[c] : c \in DOMAIN j.ids}
+        conv == UNION {j.ids[c] : c \in DOMAIN j.ids \cap DOMAIN toConv}    \* (results of a converter that was removed meanwhile are discarded)
         \* streams invalidated while the job ran are invalidated again (the job may have cached their old data)
         ic == InvalidateConv(toConv, cache, during.inv)
         tg1 == Inherit([t \in DOMAIN tags |->
@@ -472,6 +472,22 @@ ConvReset(c) ==
            b1 == StartConv(Bundle(tags, flags, jobs, use, during, tc1), indexes)
        IN Install(b1)
     /\ UNCHANGED <<settings, known, queue, nextID, allS, files, indexes, unmerge, views>>
+
+\* The converter directory changes (fsnotify; manager.go removeConverter / addConverter): an executable disappears - the
+\* converter is detached from every tag, its cache is deleted, the state is saved - or a new one appears.
+ConvRemoveOK(c) == c \in DOMAIN toConv
+ConvRemove(c) ==
+    /\ ConvRemoveOK(c)
+    /\ tags' = [t \in DOMAIN tags |-> [tags[t] EXCEPT !.convs = @ \ {c}]]
+    /\ toConv' = Without(toConv, c)
+    /\ cache' = Without(cache, c)
+    /\ UNCHANGED <<settings, known, queue, nextID, allS, files, indexes, use, flags, during, unmerge, jobs, views>>
+ConvAddOK(c) == c \notin DOMAIN toConv
+ConvAdd(c) ==
+    /\ ConvAddOK(c)
+    /\ toConv' = With(toConv, c, {})
+    /\ cache' = With(cache, c, {})
+    /\ UNCHANGED <<settings, known, queue, nextID, allS, files, indexes, use, tags, flags, during, unmerge, jobs, views>>
 
 \* UpdateTag(change query) (manager.go:1160-1236)
 UpdQueryOK(name, d) ==
@@ -620,7 +636,7 @@ AfterRestart(F, ord, T, ca, kn, q, pick) ==
                     [def |-> T[t].def,
                      M |-> IF IsMarkName(t) THEN MarkIDs(T[t].def, nxt) ELSE T[t].M,
                      U |-> IF IsMarkName(t) THEN {} ELSE all,
-                     convs |-> T[t].convs,
+                     convs |-> T[t].convs \cap DOMAIN ca,           \* (an attachment to a converter that is gone is dropped)
                      refBy |-> {u \in DOMAIN T : t \in Refs(T[u].def)},
                      color |-> T[t].color]]
         tc0  == [c \in DOMAIN ca |-> UNION {tg0[t].M : t \in {u \in DOMAIN tg0 : c \in tg0[u].convs}}]
